@@ -31,6 +31,7 @@ inductive Val where
   | hidden (b : Bool)                         -- default.go hiddenBool (a Renderer)
   | errv (located : Bool) (loc : Loc)         -- an error value (what `catch` binds)
   | intsRanger (frm to : Int)                 -- ranger.go *intsRanger fresh from ints(a,b)
+  | method (name : String) (recv : Val)       -- a bound method value of a harness type (`reflect.Value.MethodByName`)
   | opaque (what : String)                    -- anything outside the modelled fragment
   deriving Repr, Inhabited
 
@@ -53,7 +54,7 @@ def kind : Val → Kind
   | .struct _ _ => .struct
   | .ptr _ _ => .ptr
   | .iface _ => .iface
-  | .func _ | .jfunc _ | .swriter _ => .func
+  | .func _ | .jfunc _ | .swriter _ | .method _ _ => .func
   | .hidden _ => .bool
   | .errv _ _ => .ptr
   | .intsRanger _ _ => .ptr
@@ -106,6 +107,7 @@ def isZeroD : Nat → Val → Option Bool
   | _, .func _ => some false
   | _, .jfunc _ => some false
   | _, .swriter _ => some false
+  | _, .method _ _ => some false
   | _, .hidden b => some (!b)
   | _, .errv _ _ => some false
   | _, .intsRanger _ _ => some false
